@@ -1,6 +1,7 @@
 package revoceng
 
 import (
+	"encoding/base64"
 	"crypto"
 	"fmt"
 	"math/big"
@@ -76,3 +77,5 @@ func TestProbe(t *testing.T) {
 		}
 	}
 }
+
+func b64(b []byte) string { return base64.StdEncoding.EncodeToString(b) }
